@@ -59,6 +59,65 @@ func c07Script(rng *rand.Rand) (sig, detail string, trace []string, shape string
 		return "harness", err.Error(), nil, "", stats
 	}
 	defer cli.Close()
+	// ---- ghost phase: calls that are cancelled while waiting; their acknowledgements arrive later, in the foreign
+	// phase, when other calls (with other ids) are waiting
+	var ghostAcks [][]byte
+	nGhost := 0
+	if rng.Intn(2) == 0 {
+		nGhost = 1 + rng.Intn(4)
+		type ghost struct {
+			kind   string
+			cancel context.CancelFunc
+			done   chan error
+		}
+		var ghosts []*ghost
+		for i := 0; i < nGhost; i++ {
+			gctx, gcancel := context.WithCancel(context.Background())
+			g := &ghost{kind: []string{"p1", "p1", "p2", "sub", "unsub"}[rng.Intn(5)], cancel: gcancel, done: make(chan error, 1)}
+			ghosts = append(ghosts, g)
+			tag := fmt.Sprintf("g%d", i)
+			go func() {
+				cs := tr.Call("ghost-"+g.kind, tag)
+				var err error
+				switch g.kind {
+				case "p1":
+					err = cli.Publish(gctx, &mqtt.Message{Topic: "c7/" + tag, QoS: mqtt.QoS1, Payload: []byte(tag)})
+				case "p2":
+					err = cli.Publish(gctx, &mqtt.Message{Topic: "c7/" + tag, QoS: mqtt.QoS2, Payload: []byte(tag)})
+				case "sub":
+					_, err = cli.Subscribe(gctx, mqtt.Subscription{Topic: "c7/" + tag + "/0", QoS: mqtt.QoS1})
+				case "unsub":
+					err = cli.Unsubscribe(gctx, "c7/"+tag+"/0")
+				}
+				tr.Ret(cs, "ghost-"+g.kind, tag, err)
+				g.done <- err
+			}()
+		}
+		gin, ok := peer.WaitIn(scen.Watchdog, nGhost, func(p *mqttref.Packet) bool {
+			return p.Type == mqttref.PUBLISH || p.Type == mqttref.SUBSCRIBE || p.Type == mqttref.UNSUBSCRIBE
+		})
+		if !ok {
+			return "inconclusive", "ghost requests did not reach the peer", tr.Dump(40), "", stats
+		}
+		for _, ip := range gin {
+			ghostAcks = append(ghostAcks, scen.AckFor(ip.P))
+			if ip.P.Type == mqttref.PUBLISH && ip.P.QoS == 2 {
+				ghostAcks = append(ghostAcks, mqttref.EncAck(mqttref.PUBCOMP, ip.P.ID))
+			}
+		}
+		for _, g := range ghosts {
+			g.cancel()
+			select {
+			case err := <-g.done:
+				if !errors.Is(err, context.Canceled) {
+					return "disturbed", fmt.Sprintf("cancelled %s returned %v, want its context's error", g.kind, err), tr.Dump(60), "", stats
+				}
+			case <-time.After(scen.Watchdog):
+				return "inconclusive", "cancelled call did not return within the watchdog (C11's business)", tr.Dump(40), "", stats
+			}
+		}
+		stats["cancelled_calls_answered_late"] += nGhost
+	}
 	n := 1 + rng.Intn(24)
 	if rng.Intn(3) == 0 {
 		n = 1 + rng.Intn(4)
@@ -116,9 +175,9 @@ func c07Script(rng *rand.Rand) (sig, detail string, trace []string, shape string
 	isReq := func(p *mqttref.Packet) bool {
 		return p.Type == mqttref.PUBLISH || p.Type == mqttref.SUBSCRIBE || p.Type == mqttref.UNSUBSCRIBE
 	}
-	in, ok := peer.WaitIn(scen.Watchdog, n, isReq)
+	in, ok := peer.WaitIn(scen.Watchdog, n+nGhost, isReq)
 	if !ok {
-		return "inconclusive", fmt.Sprintf("only %d of %d requests reached the peer", len(in), n), tr.Dump(40), "", stats
+		return "inconclusive", fmt.Sprintf("only %d of %d requests reached the peer", len(in), n+nGhost), tr.Dump(40), "", stats
 	}
 	byTag := map[string]*c07Call{}
 	for _, k := range calls {
@@ -138,6 +197,10 @@ func c07Script(rng *rand.Rand) (sig, detail string, trace []string, shape string
 			tag = tag[:len(tag)-2]
 		}
 		k := byTag[tag]
+		if k == nil && len(tag) > 0 && tag[0] == 'g' {
+			used[ip.P.ID] = true // a cancelled call's id: its late acknowledgement belongs to nobody now
+			continue
+		}
 		if k == nil {
 			return fail("harness", "unmatched request %v", ip.P)
 		}
@@ -160,8 +223,8 @@ func c07Script(rng *rand.Rand) (sig, detail string, trace []string, shape string
 	}
 	// ---- foreign phase
 	nForeign := 0
-	if rng.Intn(8) != 0 {
-		var foreign [][]byte
+	if rng.Intn(8) != 0 || len(ghostAcks) > 0 {
+		foreign := append([][]byte{}, ghostAcks...)
 		freeID := func() uint16 {
 			for {
 				id := uint16(1 + rng.Intn(65535))
